@@ -632,3 +632,100 @@ TRUSTED_BASE = list(TRUSTED_BASE) + ['tools/tables/py2coq.py + t_src_ext.py: typ
 COQ_PROPS = (list(COQ_PROPS) if isinstance(COQ_PROPS, (list, tuple)) else [COQ_PROPS]) + ['Props/SRClookup.v']
 THEOREMS = list(THEOREMS) + ['SRC_meta_valid', 'SRC_get_meta', 'SRC_getitem']
 TABLES = sorted(set(list(globals().get('TABLES') or []) + ['t_src_lookup', 't_classes', 't_ext_tol']))
+
+
+# ------------------------------------------------------------------------------------------ part 3: systematic lookups
+# DETERMINISTIC (every seed contains it): small shapes with NON-cubic spatial extents, slice axis 0 / 1 / 2, one key per
+# classification, exact image, EVERY in-range index (plus the index-free lookup).  One case = one (image, extension) state
+# with all its queries (Coq type hist_step).
+
+SYS_SHAPES = [(5, 3, 2), (5, 3, 2, 3), (2, 3, 4, 2, 3), (3, 4, 2, 1, 2)]
+SYS_AFF = [[0.0, 0.5, 0.0, 3.0], [0.0, 0.0, 1.5, 10.5], [2.0, 0.0, 0.0, -8.0], [0.0, 0.0, 0.0, 1.0]]     # slice axes off the diagonal
+
+
+def gen_sys_cases(rng, tier):
+    import itertools
+    cases = []
+    for sh in SYS_SHAPES:
+        for sd in (0, 1, 2):
+            d = X.dims({'shape': list(sh), 'sdim': sd})
+            ents = {}
+            for i, c in enumerate(X.PREF):
+                if X.class_ok(sh, c) and (c == 'GConst' or X.mult(d, c) != 1):
+                    vals = [1000 * (i + 1) + j for j in range(X.mult(d, c))]
+                    ents['k' + c] = (c, vals)
+            E = X.mk_E(list(sh), sd, copy.deepcopy(SYS_AFF), ents)
+            img = {'shape': list(sh), 'slice': sd, 'aff': copy.deepcopy(SYS_AFF)}
+            queries = [[k, None] for k in sorted(ents)]
+            for idx in itertools.product(*[range(n) for n in sh]):
+                for k in sorted(ents):
+                    if ents[k][0] != 'GConst' or sum(idx) == 0:
+                        queries.append([k, list(idx)])
+            cases.append({'kind': 'sys-lookup/%dD/sd%d' % (len(sh), sd), 'ext': E, 'img': img, 'queries': queries})
+    return cases
+
+
+def run_sys(case):
+    w = X.build_wrapper(case['ext'], case['img'])
+    return {'answers': [_answers(w, k, idx) for k, idx in case['queries']]}
+
+
+class LookupSys:
+    NAME = 'lookup_sys'
+    CORR_REQUIRE = 'From DV Require Import Common.Jv Ext.Types Ext.Model Ext.Corr.'
+    CORR_CASE_TYPE = 'hist_step'
+    CORR_CHECK = 'check_step'
+    CORR_SHOW = 'run_step'
+    SHARD = 3
+    IMPL_TIMEOUT = 120
+    RULE = ('deterministic block (in every seed): shapes (5,3,2), (5,3,2,3), (2,3,4,2,3), (3,4,2,1,2) x slice axis 0/1/2 on an '
+            'affine whose slice axes are off the diagonal, one key per classification with all-different values, the exact '
+            'image, EVERY in-range voxel index for every varying key (and the index-free lookup); non-trivial = always (every '
+            'case holds every varying class)')
+    gen_cases = staticmethod(gen_sys_cases)
+    run_impl = staticmethod(run_sys)
+
+    @staticmethod
+    def coq_case(case, obs):
+        qs = []
+        for (key, idx), a in zip(case['queries'], obs.get('answers', [])):
+            mv = [m if isinstance(m, bool) else False for m in a['mv']]
+            qs.append('(mk_lookup_query %s %s %s %s %s %s)' % (
+                X.cstr(key), X.copt(idx, lambda ix: X.clist(X.cz(i) for i in ix)), X.cjv(DEFAULT),
+                X.resjv_to_coq(a['get']), X.clist(X.cbool(b) for b in mv), X.resjv_to_coq(a['item'])))
+        return '(%s, %s, %s)' % (X.img_to_coq(case['img']), X.ext_to_coq(case['ext']), X.clist(qs))
+
+    @staticmethod
+    def oracle(case, obs):
+        if 'crash' in obs:
+            return 'harness: %s: %s' % (obs.get('crash'), obs.get('msg'))
+        if len(obs.get('answers', [])) != len(case['queries']):
+            return 'only %d of %d lookups were answered' % (len(obs.get('answers', [])), len(case['queries']))
+        msgs = []
+        for (key, idx), a in zip(case['queries'], obs['answers']):
+            q = {'ext': case['ext'], 'img': case['img'], 'key': key, 'index': idx, 'default': DEFAULT}
+            msgs += ['%r at %r: %s' % (key, idx, m) for m in oracle_all(q, a)]
+        return _pick(msgs)
+
+    @staticmethod
+    def signature(case, obs, msg):
+        if N13_TAG in msg:
+            return N13_SIG
+        cls = [c for c in X.CLASSES if ("'k%s'" % c) in msg[:40]]
+        return 'lookup-sys/%s/%dD' % (cls[0] if cls else 'any', len(case['img']['shape']))
+
+    @staticmethod
+    def nontrivial(case, obs):
+        return any(c != 'GConst' for _, c, _ in case['ext']['entries'])
+
+    @staticmethod
+    def shrink(case):
+        n = len(case['queries'])
+        if n > 1:
+            for half in (case['queries'][:n // 2], case['queries'][n // 2:]):
+                c = dict(case)
+                c['queries'] = half
+                yield c
+
+
+PARTS = [LookupSys, Lookup, LookupHist]
